@@ -13,7 +13,11 @@ def cands(n):   # strip crate prefix, and the test-binary component of integrati
     if "::" in a:
         out.append(a.split("::", 1)[1])
     return out
-missing = [n for n in base["stable_pass"] if not any(c in ok for c in cands(n))]
+subset = "--subset" in sys.argv     # only the crates that were run: a stable test counts as missing only if it FAILED
+if subset:
+    missing = [n for n in base["stable_pass"] if any(c in failed for c in cands(n)) and not any(c in ok for c in cands(n))]
+else:
+    missing = [n for n in base["stable_pass"] if not any(c in ok for c in cands(n))]
 unexpected_fail = [f for f in failed if not any(f in cands(n) for n in base["always_fail"])]
 print("passed %d, failed %d; baseline stable tests not passing: %d; failures outside always_fail: %d"
       % (len(ok), len(failed), len(missing), len(unexpected_fail)))
